@@ -605,7 +605,7 @@ Theorem num_cmp_exact : forall a b,
 Proof.
   intros a b Wa Wb. unfold xeq.
   destruct a as [| | |ra za|fa| | | |]; try contradiction;
-  destruct b as [| | |rb zb|fb| | | |]; try contradiction; cbn [wf_num xval xval_int] in *.
+  destruct b as [| | |rb zb|fb| | | |]; try contradiction; cbn [wf_num xval] in *; unfold xval_int in *.
   - (* int, int *)
     destruct (int_int_cmp_exact ra za rb zb Wa Wb) as [H1 H2].
     rewrite H1, H2. cbn [xcmp]. rewrite dy_cmp_int. split; [reflexivity|].
@@ -628,4 +628,133 @@ Proof.
            cbn [f_is_nan andb orb]; split; [reflexivity|];
            match goal with |- context [xcmp ?u ?v] => destruct (xcmp u v) end;
            split; congruence).
+    all: try (destruct sa; cbn; (split; [reflexivity|split; congruence])).
+    all: try (destruct sb; cbn; (split; [reflexivity|split; congruence])).
 Qed.
+
+(* ---------------------------------------------------------------- corollaries *)
+
+Definition is_Eq (c : comparison) : bool := match c with Eq => true | _ => false end.
+
+Lemma num_eq_exact : forall a b, wf_num a -> wf_num b ->
+  num_eq a b = is_Eq (xcmp (xval a) (xval b)).
+Proof.
+  intros a b Wa Wb. destruct (num_cmp_exact a b Wa Wb) as [_ H]. unfold xeq in H.
+  destruct (num_eq a b); destruct (xcmp (xval a) (xval b)); cbn; try reflexivity;
+    try (destruct H as [H1 H2]; (discriminate (H1 eq_refl) || discriminate (H2 eq_refl))).
+Qed.
+
+Lemma num_partial_cmp_exact : forall a b, wf_num a -> wf_num b ->
+  num_partial_cmp a b = Some (xcmp (xval a) (xval b)).
+Proof. intros a b Wa Wb. apply (num_cmp_exact a b Wa Wb). Qed.
+
+(* the answer of each comparison operator, read off the exact order *)
+Definition spec_test (op : cmpop) (c : comparison) : bool :=
+  match op with
+  | OpEq => is_Eq c
+  | OpNe => negb (is_Eq c)
+  | OpLt => match c with Lt => true | _ => false end
+  | OpLe => match c with Gt => false | _ => true end
+  | OpGt => match c with Gt => true | _ => false end
+  | OpGe => match c with Lt => false | _ => true end
+  end.
+
+Lemma vm_cmp_exact : forall op a b, wf_num a -> wf_num b ->
+  vm_cmp op a b = ROk (VBool (spec_test op (xcmp (xval a) (xval b)))).
+Proof.
+  intros op a b Wa Wb. unfold vm_cmp.
+  rewrite (num_eq_exact a b Wa Wb), (num_partial_cmp_exact a b Wa Wb).
+  destruct op; cbn [spec_test]; try reflexivity;
+    destruct (xcmp (xval a) (xval b)); reflexivity.
+Qed.
+
+Lemma num_cmp_refl : forall a, wf_num a ->
+  num_partial_cmp a a = Some Eq /\ num_eq a a = true.
+Proof.
+  intros a W. rewrite (num_partial_cmp_exact a a W W), (num_eq_exact a a W W), xcmp_refl.
+  split; reflexivity.
+Qed.
+
+Lemma num_cmp_antisym : forall a b, wf_num a -> wf_num b ->
+  num_partial_cmp b a = option_map CompOpp (num_partial_cmp a b) /\ num_eq b a = num_eq a b.
+Proof.
+  intros a b Wa Wb.
+  rewrite (num_partial_cmp_exact a b Wa Wb), (num_partial_cmp_exact b a Wb Wa),
+    (num_eq_exact a b Wa Wb), (num_eq_exact b a Wb Wa), (xcmp_antisym (xval a) (xval b)).
+  split; [reflexivity|]. destruct (xcmp (xval a) (xval b)); reflexivity.
+Qed.
+
+Lemma num_cmp_trans : forall r a b c, wf_num a -> wf_num b -> wf_num c ->
+  num_partial_cmp a b = Some r -> num_partial_cmp b c = Some r -> num_partial_cmp a c = Some r.
+Proof.
+  intros r a b c Wa Wb Wc.
+  rewrite (num_partial_cmp_exact a b Wa Wb), (num_partial_cmp_exact b c Wb Wc),
+    (num_partial_cmp_exact a c Wa Wc).
+  intros H1 H2. f_equal. apply (xcmp_trans r _ (xval b)); congruence.
+Qed.
+
+Lemma num_eq_trans : forall a b c, wf_num a -> wf_num b -> wf_num c ->
+  num_eq a b = true -> num_eq b c = true -> num_eq a c = true.
+Proof.
+  intros a b c Wa Wb Wc.
+  rewrite (num_eq_exact a b Wa Wb), (num_eq_exact b c Wb Wc), (num_eq_exact a c Wa Wc).
+  intros H1 H2.
+  assert (E1 : xcmp (xval a) (xval b) = Eq) by (destruct (xcmp (xval a) (xval b)); try discriminate; reflexivity).
+  assert (E2 : xcmp (xval b) (xval c) = Eq) by (destruct (xcmp (xval b) (xval c)); try discriminate; reflexivity).
+  rewrite (xcmp_trans Eq _ _ _ E1 E2). reflexivity.
+Qed.
+
+(* == is exactly "the ordering says Equal" *)
+Lemma num_eq_iff_cmp_eq : forall a b, wf_num a -> wf_num b ->
+  (num_eq a b = true <-> num_partial_cmp a b = Some Eq).
+Proof.
+  intros a b Wa Wb. rewrite (num_eq_exact a b Wa Wb), (num_partial_cmp_exact a b Wa Wb).
+  destruct (xcmp (xval a) (xval b)); cbn; split; congruence.
+Qed.
+
+(* numbers that are == are interchangeable in every comparison: the result never depends on
+   the representation *)
+Lemma num_cmp_rep_independent : forall a a' b, wf_num a -> wf_num a' -> wf_num b ->
+  num_eq a a' = true ->
+  num_partial_cmp a b = num_partial_cmp a' b /\ num_eq a b = num_eq a' b /\
+  num_partial_cmp b a = num_partial_cmp b a' /\ num_eq b a = num_eq b a'.
+Proof.
+  intros a a' b Wa Wa' Wb.
+  rewrite (num_eq_exact a a' Wa Wa'). intro H.
+  assert (E : xcmp (xval a) (xval a') = Eq) by (destruct (xcmp (xval a) (xval a')); try discriminate; reflexivity).
+  rewrite (num_partial_cmp_exact a b Wa Wb), (num_partial_cmp_exact a' b Wa' Wb),
+    (num_partial_cmp_exact b a Wb Wa), (num_partial_cmp_exact b a' Wb Wa'),
+    (num_eq_exact a b Wa Wb), (num_eq_exact a' b Wa' Wb), (num_eq_exact b a Wb Wa),
+    (num_eq_exact b a' Wb Wa').
+  rewrite (xcmp_eq_l _ _ (xval b) E), (xcmp_eq_r (xval b) _ _ E). auto.
+Qed.
+
+(* same integer in two representations *)
+Lemma same_int_any_rep : forall ra rb z b, rep_ok ra z = true -> rep_ok rb z = true -> wf_num b ->
+  num_partial_cmp (VInt ra z) b = num_partial_cmp (VInt rb z) b /\
+  num_eq (VInt ra z) b = num_eq (VInt rb z) b.
+Proof.
+  intros ra rb z b Ha Hb Wb.
+  assert (E : num_eq (VInt ra z) (VInt rb z) = true).
+  { rewrite (num_eq_exact (VInt ra z) (VInt rb z) Ha Hb). cbn [xval]. rewrite xcmp_refl. reflexivity. }
+  destruct (num_cmp_rep_independent (VInt ra z) (VInt rb z) b Ha Hb Wb E) as [H1 [H2 _]].
+  auto.
+Qed.
+
+Lemma nan_is_greatest : forall b, wf_num b ->
+  num_partial_cmp (VFloat S754_nan) b =
+    Some (match b with VFloat S754_nan => Eq | _ => Gt end) /\
+  num_eq (VFloat S754_nan) (VFloat S754_nan) = true.
+Proof.
+  intros b Wb. split; [|reflexivity].
+  rewrite (num_partial_cmp_exact (VFloat S754_nan) b (eq_refl : wf_num (VFloat S754_nan)) Wb).
+  destruct b as [| | |r z|f| | | |]; try contradiction; cbn; [reflexivity|].
+  destruct f as [s|s| |s m e]; try reflexivity; destruct s; reflexivity.
+Qed.
+
+Lemma zeros_equal : forall r, 
+  num_eq (VFloat (S754_zero true)) (VFloat (S754_zero false)) = true /\
+  num_eq (VFloat (S754_zero true)) (VInt r 0) = true /\
+  num_eq (VInt r 0) (VFloat (S754_zero false)) = true /\
+  num_partial_cmp (VFloat (S754_zero true)) (VInt r 0) = Some Eq.
+Proof. intro r. vm_compute. auto. Qed.
